@@ -147,3 +147,12 @@ Proof.
       rewrite brev_nth by (try rewrite brev_length; auto).
       rewrite brev_nth by (auto; apply bitrev_nat_lt). rewrite bitrev_nat_invol by exact Hi. reflexivity.
 Qed.
+
+Lemma Forall_brev {A} (P : A -> Prop) l (x : list A) : length x = 2 ^ l -> Forall P x -> Forall P (brev l x).
+Proof.
+  intros Hx H. destruct x as [|d x'] eqn:Ex; [cbn in Hx; pose proof (Nat.pow_nonzero 2 l); lia|].
+  rewrite <- Ex in *. clear Ex x'.
+  rewrite (brev_bitrev_list d) by exact Hx. unfold bitrev_list. apply Forall_forall. intros v Hv.
+  apply in_map_iff in Hv. destruct Hv as [i [<- Hi]]. rewrite Forall_forall in H. apply H, nth_In.
+  rewrite Hx. apply bitrev_nat_lt.
+Qed.
